@@ -24,6 +24,10 @@ pub enum Filt {
     Level(u8),
     Name(String),
     Target(String),
+    /// Looks at the context, not only at the call site: enabled while some span is entered on the
+    /// emitting thread (`dynamic_filter_fn`). Not part of the Lean model's filters: such cases are
+    /// judged by the reference interpreter only.
+    InSpan,
 }
 
 impl Filt {
@@ -33,11 +37,15 @@ impl Filt {
             Filt::Level(l) => format!("level:{l}"),
             Filt::Name(n) => format!("name:{}", xs(n)),
             Filt::Target(t) => format!("target:{}", xs(t)),
+            Filt::InSpan => "inspan".into(),
         }
     }
     pub fn parse(t: &str) -> Option<Self> {
         if t == "-" {
             return Some(Filt::All);
+        }
+        if t == "inspan" {
+            return Some(Filt::InSpan);
         }
         let (k, v) = t.split_once(':')?;
         Some(match k {
@@ -54,6 +62,15 @@ impl Filt {
             Filt::Level(l) => site.level <= *l,
             Filt::Name(n) => site.name != *n,
             Filt::Target(t) => site.target.starts_with(t.as_str()),
+            Filt::InSpan => true,
+        }
+    }
+
+    /// The verdict given whether a span is entered on the calling thread.
+    pub fn enabled_in(&self, meta: &Metadata<'_>, in_span: bool) -> bool {
+        match self {
+            Filt::InSpan => in_span,
+            f => f.enabled(meta),
         }
     }
 }
@@ -138,6 +155,8 @@ impl Config {
             Filt::All => Box::new(layer),
             Filt::Level(l) if self.per_layer => Box::new(Layer::with_filter(layer, level_filter(l))),
             Filt::Level(l) => Box::new(layer.with_filter(level_filter(l))),
+            Filt::InSpan if self.per_layer => Box::new(Layer::with_filter(layer, tracing_subscriber::filter::dynamic_filter_fn(|_meta, cx| cx.lookup_current().is_some()))),
+            Filt::InSpan => Box::new(layer.with_filter(tracing_subscriber::filter::dynamic_filter_fn(|_meta, cx| cx.lookup_current().is_some()))),
             f if self.per_layer => Box::new(Layer::with_filter(layer, filter_fn(move |meta| f.enabled(meta)))),
             f => Box::new(layer.with_filter(filter_fn(move |meta| f.enabled(meta)))),
         };
@@ -574,7 +593,7 @@ pub fn expected_dump_tagged(sites: &[Site], flt: &Filt, log: &[(usize, program::
     use std::collections::HashMap;
     struct Sp { k: usize, vals: Vec<(String, crate::proto::Val)>, e: usize, x: usize, par: Option<usize>, ch: Vec<usize>, ev: Vec<usize>, ff: Vec<usize>, id: u64 }
     struct Evn { k: usize, vals: Vec<(String, crate::proto::Val)>, par: Option<usize> }
-    let enabled = |k: usize| flt.enabled(dynsite::metadata_for(&sites[k]));
+    let enabled = |k: usize, stack: &Vec<(u64, bool)>| flt.enabled_in(dynsite::metadata_for(&sites[k]), stack.iter().any(|e| !e.1));
     let values = |k: usize, vals: &program::PVals| -> Vec<(String, crate::proto::Val)> {
         let mut out = vec![];
         for (i, tok) in vals {
@@ -621,7 +640,7 @@ pub fn expected_dump_tagged(sites: &[Site], flt: &Filt, log: &[(usize, program::
                 let par = resolve(ptok, &stack);
                 parent.insert(*id, par);
                 handles.insert(*id, 1);
-                if enabled(*k) {
+                if enabled(*k, &stack) {
                     let pc = nearest(par, &cap, &parent);
                     let idx = spans.len();
                     spans.push(Sp { k: *k, vals: values(*k, vals), e: 0, x: 0, par: pc, ch: vec![], ev: vec![], ff: vec![], id: *id });
@@ -664,7 +683,7 @@ pub fn expected_dump_tagged(sites: &[Site], flt: &Filt, log: &[(usize, program::
             FeCall::Clone(id) => *handles.entry(*id).or_default() += 1,
             FeCall::TryClose(id) => *handles.entry(*id).or_default() -= 1,
             FeCall::Event { k, parent: ptok, vals } => {
-                if enabled(*k) {
+                if enabled(*k, &stack) {
                     let pc = nearest(resolve(ptok, &stack), &cap, &parent);
                     let idx = events.len();
                     events.push(Evn { k: *k, vals: values(*k, vals), par: pc });
@@ -730,6 +749,7 @@ impl Suite for Capture {
             let f = match rng.below(6) {
                 0 | 1 => Filt::All,
                 2 | 3 => Filt::Level(rng.below(5) as u8),
+                4 if rng.chance(1, 2) => Filt::InSpan,
                 4 => Filt::Name(format!("n{}", rng.below(4))),
                 _ => Filt::Target((*rng.pick(&["app", "app::db", "other"])).to_owned()),
             };
@@ -876,6 +896,12 @@ impl Suite for Capture {
                 }
             }
             out.tags.push("multi-layer-or-pass".into());
+        }
+        if cfg.layers.iter().any(|f| *f == Filt::InSpan) {
+            // not comparable with the model (its filters are functions of the call site)
+            out.obs.clear();
+            out.docs.clear();
+            out.tags.push("context-filter".into());
         }
         let n_spans = dumps.first().map_or(0, |d| d.iter().filter(|l| l.contains(" sp ")).count());
         let deep = dumps.first().map_or(false, |d| d.iter().any(|l| l.contains(" sp ") && !l.contains("par=-")));
